@@ -21,7 +21,7 @@ import common
 from common import zs, zz
 
 PROP = "C09"
-PROPERTY_FILES = ["Properties/C09.v", "Properties/C09e2e.v"]
+PROPERTY_FILES = ["Properties/C09.v", "Properties/C09e2e.v", "Properties/C06lists.v"]
 META = dict(
     level_text="Theorems (Coq, closed under the global context; json.dumps/loads and the cipher are explicit premises, "
                "shown satisfiable): for EVERY run record accepted by the constructors -- any identifiers, index, "
